@@ -338,6 +338,16 @@ CHECKS += [
          technique="lifted execution of defer_measurements / default.qubit / tree-traversal on z3 circle-polynomial terms with solver-decided pruning branches; z3 QF_NRA equality proofs against a branch-enumeration oracle"),
 ]
 
+CHECKS += [
+    dict(property_id="C51", category="other", engine=E1,
+         text="Partial (dense matrices): Pauli sentences with SYMBOLIC complex coefficients (6 sentences over a pool of 9 words on up to 3 wires, identity word included) go "
+              "through the REAL PauliWord/PauliSentence product, sum, difference, scalar multiple, commutator, map_wires, simplify, trace, operation(), dense to_mat in "
+              "permuted wire orders, pauli_sentence(op) and pauli_decompose(matrix); z3 proves for all coefficient values that the dense matrix of each result equals the "
+              "same operation on Kronecker-product matrices built by the check, and that the conversions round-trip (zero-coefficient tests fork).",
+         note=PROOF_NOTE + " Category 'other' (partial): sparse matrices (csr formats, buffer sizes, sparse pauli_decompose) cannot hold solver terms and are outside.",
+         technique="lifted execution of the Pauli arithmetic on z3 complex-polynomial coefficients; z3 QF_NRA equality proofs against Kronecker-product matrices"),
+]
+
 _NOT_BUILT = "claimed in DESIGN.md §4 but its solver-based check is not built yet in this tree"
 NOT_APPLICABLE_REASONS = {
     "C04": "equality/hash: Python hash() of concrete payloads and tolerance-based allclose relations; no exact relation a solver can decide",
